@@ -81,7 +81,14 @@ fn main() {
     let model_path = if model_path == "none" { None } else { Some(model_path.clone()) };
     let mut ctx = Ctx { tier, seed, model, model_path, replay, workdir };
     // panics of the code under test are caught per case; keep their messages out of stdout
-    std::panic::set_hook(Box::new(|_| {}));
+    std::panic::set_hook(Box::new(|info| {
+        // remember where the last panic came from (file:line) for `props::guarded`
+        if let Some(l) = info.location() {
+            if let Ok(mut g) = props::LAST_PANIC_LOC.lock() {
+                *g = format!("{}:{}", l.file(), l.line());
+            }
+        }
+    }));
     let mut rep = match props::run(&prop, &mut ctx) {
         Some(r) => r,
         None => {
